@@ -12,6 +12,9 @@ structure St where
   sims : List (String × String) := []
   nodes : List Node := []
   xnodes : List XNode := []
+  /-- lint session: what `fetch_uod_info` answers / what `create_analysis_input` has cached (tags, commands) -/
+  sessDefn : Option (List TagDef × List CmdDef) := none
+  sessCached : Option (List TagDef × List CmdDef) := none
 
 def St.env (s : St) : Env :=
   ⟨s.tags, s.cmds, fun a b => s.sims.contains (a, b), OPM.Gen.unitSys⟩
@@ -53,6 +56,7 @@ def showItems (l : List Item) : String :=
   `node <line> <kind> <hasCond> <tagName|N> <op> <rhs> <tagValue|N> <tagUnit|N> <instrName> <lineText>
         <arguments> <hasArgument> <argsValid>`                                           → `ok`
   `analyze` / `analyzeold`   → items (`C|S|M:id:line:E:fix` …) | `none` | `err:…`
+  `sess-register` / `sess-uodinfo` / `sess-lint` : a lint session over time (model `sessStep`)
   `lint` / `lintold`         → `generic` | diagnostics (`id:line:E:fix` …, no analyzer letter) | `none` -/
 def step (s : St) (line : String) : St × String :=
   match fields line with
@@ -104,6 +108,27 @@ def step (s : St) (line : String) : St × String :=
         | _, _, _, _, _, _ => (s, "bad-op")
       | _, _, _, _, _ => (s, "bad-op")
     | _, _, _, _, _, _, _, _ => (s, "bad-op")
+  | ["sess-register"] =>
+    ({ s with sessDefn := none, sessCached := none, tags := [], cmds := [], nodes := [], xnodes := [] }, "ok")
+  | ["sess-uodinfo"] =>
+    -- the tags / commands transmitted since the last session op are the definition the aggregator now holds
+    ({ s with sessDefn := some (s.tags, s.cmds), tags := [], cmds := [], nodes := [], xnodes := [] }, "ok")
+  | ["sess-lint"] =>
+    -- the nodes transmitted since the last session op are the document; `similar` facts accumulate over the case
+    let mkEnv : List TagDef × List CmdDef → Env := fun tc =>
+      ⟨tc.1, tc.2, fun a b => s.sims.contains (a, b), OPM.Gen.unitSys⟩
+    let sess : Sess := ⟨s.sessDefn.map mkEnv, s.sessCached.map mkEnv⟩
+    let (_, out) := sessStep sess (.lint s.xnodes)
+    -- the new cache content, as data (same case split as `sessStep`)
+    let cached' := match s.sessCached with
+      | some c => some c
+      | none => s.sessDefn
+    let txt := match out with
+      | none => "none"
+      | some ds => if ds.isEmpty then "none" else " ".intercalate (ds.map fun d => match d with
+        | .generic => "generic"
+        | .ofItem i => s!"{i.id}:{i.line}:{if i.isError then "E" else "-"}:{if i.hasFix then "fix" else "-"}")
+    ({ s with sessCached := cached', nodes := [], xnodes := [] }, txt)
   | ["analyzeall"] =>
     (s, match analyzeAll s.env true s.xnodes with | .ok l => showItems l | .error e => showAErr e)
   | ["analyzeallold"] =>
